@@ -44,8 +44,15 @@ QUICK_BFS = [
     ("k4-sets-wrap", "K=4 off=0,1,24 prio=3 resched=- sets=1,2,3 cap=1500000"),
 ]
 THOROUGH_BFS = QUICK_BFS + [
+    # K=3 with 5 priorities (incl. both extremes and the sign change) at all offsets
     ("k3-prio5", "K=3 off=all prio=0,2,3,4,7 resched=- sets=- cap=12000000"),
-    ("k4-off3-prio2", "K=4 off=0,1,24 prio=3,4 resched=- sets=- cap=30000000"),
+    # K=3 with re-scheduling callbacks (follow-up 0/1/24 frames ahead) and the one-item set
+    ("k3-prio3-resched", "K=3 off=all prio=0,3,7 resched=0,1,24 rprio=3 sets=0 cap=46000000"),
+    # K=4 on the wrap sub-alphabet of offsets {0,1,24}
+    ("k4-off3-prio3", "K=4 off=0,1,24 prio=0,3,7 resched=- sets=- cap=46000000"),
+    ("k5-off3-prio1", "K=5 off=0,1,24 prio=3 resched=- sets=- cap=4000000"),
+    ("k4-prio1", "K=4 off=all prio=3 resched=- sets=- cap=800000"),
+    # a three-item set plus one single item / one-item sets at all offsets
     ("k4-sets-all", "K=4 off=all prio=3 resched=- sets=0,1,2,3 cap=15000000"),
 ]
 
@@ -116,7 +123,7 @@ def run(ctx):
     b = cbuild.builddir("c08")
     try:
         _exe = _build(b)
-        tmo = 280 if ctx.quick else 1500
+        tmo = 280 if ctx.quick else 2400
         jobs = []
         for name, args in (QUICK_BFS if ctx.quick else THOROUGH_BFS):
             jobs.append((name, ["bfs"] + args.split(), tmo))
